@@ -79,6 +79,8 @@ void h_C16_seq(void)
 		for (unsigned i = 0; i < C16_N; i++)
 			if (i < mn && m[i]->error) bad++;
 		__CPROVER_assert(jwks_error_any(set) == (int)(set->error + bad), "C16: jwks_error_any counts the set error plus the errored items");
+		/* get / count / find / error_any are reads: the list is what it was (C16, C18) */
+		check_model(set);
 	}
 #elif C16_MODE == 2
 	{
